@@ -104,7 +104,11 @@ class C(Check):
                 self.inconclusive += 1
                 continue
             if st.st == 'exc':
-                self.count('declined:' + str(st.ty))
+                # the function has no documented failure mode: every generated grid has pairwise distinct points
+                self.count('raised:' + str(st.ty))
+                self.evaluations += 1
+                self.violation(dict(clause='raised-on-valid-grid', kind=m[0], ty=str(st.ty)),
+                               dict(program=[render(s) for s in progs[c]], msg=st.msg, config='asan'))
                 continue
             if st.st != 'ok':
                 self.inconclusive += 1
